@@ -24,6 +24,11 @@ that code:
  R5  every occurrence counts: the occurrences of parametrised variables that are
      recorded for the callee are the ones removed from the call -- no first-match
      look-up (``arguments.index(v)``) next to a filter that removes all of them.
+ R6  per argument kind: a pairing of dummies and actuals that also covers keyword
+     arguments (``call.arg_iter()``) fixes dummies for keyword-passed variables,
+     so the rebuilt call must filter ``kwarguments=`` as well; a positional
+     pairing (``zip(call.routine.arguments, call.arguments)``) goes with the
+     positional filter alone.
 Not decided: equivalence of the parametrised code for matching inputs (value
 level), the replace-by-value inlining.
 """
@@ -231,11 +236,17 @@ def run(ctx):
     # positionally, as loop target of zip(<call>.routine.arguments, <call>.arguments)
     stores = []
     positional = {}
+    pairing_covers_keywords = []
     for l in ast.walk(fn):
         if isinstance(l, ast.For) and isinstance(l.iter, ast.Call) and X.call_name_of(l.iter) == 'zip' and len(l.iter.args) == 2 \
                 and isinstance(l.target, ast.Tuple) and len(l.target.elts) == 2 and ast.unparse(l.iter.args[0]).endswith('.routine.arguments') \
                 and ast.unparse(l.iter.args[1]).endswith('.arguments') and not ast.unparse(l.iter.args[1]).endswith('.routine.arguments'):
             positional[l.target.elts[0].id] = (l.target.elts[1].id, l)
+        # `for dummy, arg in <call>.arg_iter()`: the same pairing, extended to keyword arguments
+        if isinstance(l, ast.For) and isinstance(l.iter, ast.Call) and isinstance(l.iter.func, ast.Attribute) and l.iter.func.attr == 'arg_iter' \
+                and isinstance(l.target, ast.Tuple) and len(l.target.elts) == 2 and all(isinstance(e_, ast.Name) for e_ in l.target.elts):
+            positional[l.target.elts[0].id] = (l.target.elts[1].id, l)
+            pairing_covers_keywords.append(l)
     for a in ast.walk(fn):
         if isinstance(a, ast.Assign) and isinstance(a.targets[0], ast.Subscript):
             key_e = a.targets[0].slice
@@ -289,6 +300,8 @@ def run(ctx):
                 return value_ok(defs[0], p)
         return False, f'the value `{txt}` is not `{dname}[{p}.name]`'
     run_r5(ctx, fn, ts, dname)
+    run_r6(ctx, fn, ts, st, bool(pairing_covers_keywords) or bool(inv) and not any(
+        isinstance(n, ast.Name) and n.id in positional for n in ast.walk(st.targets[0].slice)))
     okv, why = value_ok(st.value, passed)
     if inv_ok and okv:
         ctx.judge('R4', 'callee data: key = callee dummy, value = caller value of the passed variable',
@@ -297,6 +310,35 @@ def run(ctx):
         what = why if inv_ok else 'the key is not the callee dummy obtained from the inverse of call.arg_iter()'
         ctx.violation('R4', 'transform_subroutine:callee-data', f'{ts.module.relpath}:{st.lineno}',
                       f'`{ast.unparse(st)[:140]}`: {what}: the callee fixes a different dummy, or a different value, than the caller passed')
+
+
+def run_r6(ctx, fn, ts, st, covers_keywords):
+    """arguments that fix a dummy of the callee == arguments removed from the call, per argument kind (positional / keyword)"""
+    ctx.rule('R6', 'a parametrised variable fixes a dummy of the callee only where it is also removed from the call: a pairing that covers '
+                   'keyword arguments (call.arg_iter()) needs `kwarguments=` filtered in the rebuilt call')
+    clones = [c for c in ast.walk(fn) if isinstance(c, ast.Call) and isinstance(c.func, ast.Attribute) and c.func.attr in ('clone', '_rebuild')
+              and any(k.arg == 'arguments' for k in c.keywords)]
+
+    def filtered(v):
+        if isinstance(v, ast.Name):
+            defs = [a.value for a in ast.walk(fn) if isinstance(a, ast.Assign) and any(isinstance(t, ast.Name) and t.id == v.id for t in a.targets)]
+            return any(filtered(d) for d in defs)
+        return any(isinstance(c, (ast.GeneratorExp, ast.ListComp)) and any(
+            isinstance(i_, ast.Compare) and isinstance(i_.ops[0], ast.NotIn) for g in c.generators for i_ in g.ifs) for c in ast.walk(v))
+    clones = [c for c in clones if filtered(next(k.value for k in c.keywords if k.arg == 'arguments'))]
+    if len(clones) != 1:
+        raise AnalysisError(f'transform_subroutine: expected one rebuilt call with filtered `arguments=`, found {len(clones)}')
+    c = clones[0]
+    kw = next((k.value for k in c.keywords if k.arg == 'kwarguments'), None)
+    strips_keywords = kw is not None and filtered(kw)
+    facts = {'pairing_covers_keyword_arguments': covers_keywords, 'call_strips_keyword_arguments': strips_keywords}
+    if covers_keywords and not strips_keywords:
+        ctx.violation('R6', 'transform_subroutine:keyword-argument-fixed-but-kept', f'{ts.module.relpath}:{st.lineno}',
+                      f'`{ast.unparse(st)[:90]}` is reached for keyword arguments too (the pairing comes from arg_iter()), but '
+                      f'`{ast.unparse(c)[:70]}` removes parametrised variables from the positional arguments only: for `call sub(t, klev=nlev)` '
+                      f'the callee drops the dummy `klev` while the call still passes it', facts=facts)
+    else:
+        ctx.judge('R6', 'fixed occurrences are removed occurrences (per argument kind)', facts=facts)
 
 
 def run_r5(ctx, fn, ts, dname):
@@ -330,6 +372,8 @@ def _comp_of(fn, e):
     return None
 
 MUTANTS = [
+    Mutant('callee-data-from-arg-iter', FILE, "                    for dummy, arg in zip(call.routine.arguments, call.arguments):",
+           "                    for dummy, arg in call.arg_iter():", expect=('R6', 'keyword-argument-fixed-but-kept')),
     Mutant('guard-operator-eq', FILE, "condition = sym.Comparison(routine.variable_map[f'parametrised_{key}'], '!=',",
            "condition = sym.Comparison(routine.variable_map[f'parametrised_{key}'], '==',", expect=('R1', 'guard:operator'), quick=True),
     Mutant('guard-operator-gt', FILE, "condition = sym.Comparison(routine.variable_map[f'parametrised_{key}'], '!=',",
